@@ -84,7 +84,10 @@ def cases(tier):
     if tier == "quick":
         cs = scopes.h_cases(3, 3, 1) + scopes.h_cases(4, 4, 1, nmin=4, edge_only_above=3)
     else:
-        cs = scopes.h_cases(4, 4, 2, with_labels=True) + scopes.h_cases(4, 5, 1, nmin=4)
+        # d<=2 in full on the skeletons with <=3 junctions, all pairs of branch kinds on the 4-junction skeletons,
+        # d<=1 on the skeletons with 5 branches
+        cs = scopes.h_cases(3, 3, 2) + scopes.h_cases(4, 5, 1, nmin=4) + scopes.h_cases(
+            4, 4, 2, nmin=4, with_config=False, with_labels=False, edge_only_above=3)
     return cs + loop_cases()
 
 
